@@ -86,6 +86,12 @@ var w5C06Shapes = []string{
 	"select key, list(n, n + 1) as l, int(value) as n where key in ('k00', 'k08', 'k16', 'zz') & n in l",
 	"select key, split(value, ',') as parts, parts[0] where key in ('k03', 'k11', 'k14', 'k25', 'k36', 'nokey') & 'x' in parts",
 	"select key, u, upper(value) as u, join(',', u, u) where key in ('k40', 'k41', 'k42', 'k43', 'k44') limit 1, 3",
+	// a select-field name on the RIGHT of & / | in WHERE (its column is computed for the rows the left
+	// operand leaves, the projection reads it for the rows that pass), also behind a name and nested
+	"select key, int(value) as v where value != '12' & v >= 0",
+	"select key, int(value) as v, upper(value) as u where (value ^= 'a' | v > 1) & (key > 'k05' | u != 'ABC')",
+	"select key, strlen(value) as n, n + 1 as m where key < 'k40' & (value = '' | m > 2) & n >= 0 limit 2, 40",
+	"select key, upper(value) as u where !(value ^= '1') & u != '' & key in ('k01', 'k02', 'k03', 'k10', 'k11', 'k12', 'k20')",
 	// ORDER BY over mixed kinds (text / numbers / booleans / JSON members in one column)
 	"select key, value as v where key >= '' order by v",
 	"select key, int(value) + 0 as n, float(value) as f where key > '' order by f, n desc",
@@ -397,6 +403,13 @@ func c06Corpus(r *rng, n int) []string {
 		"select key where key = 'a' order by nosuch",
 		"select * where key between 'b' and 'a'",
 		"select 1/0, 1/0.0, 9223372036854775807 + 1, int(value) / int(value) where key ^= ''",
+		// constants only the folder can build (negative / overflowing literals) in every integer position
+		"select key, substr(value, 0 - 3, 2), substr(value, 1, 0 - 2), substr(key, 0 - 1, 0 - 1) where key >= ''",
+		"select key, substr(value, 0 - 9223372036854775807, 9223372036854775807 + 1) where key >= ''",
+		"select key, int_list(0 - 1, 2)[0], list(0 - 1, 0 - 2.5)[1], str(0 - 7), strlen(str(0 - 10)) where key >= ''",
+		"select key where substr(value, 0 - 3, 2) = '' | int(value) > 0 - 5 & key between 'a' + 'b' and 'k' + 'z'",
+		"delete where substr(value, 0 - 3, 2) = 'zz' & key ^= 'k'",
+		"put ('k' + str(0 - 1), substr('abcdef', 0 - 2, 3))",
 		"select key, int(value) as n where n > 2 & key in ('a', 'ab', 'b', 'c')",
 		"select key, upper(value) as u where u != 'X' & key in ('a', 'b', 'c', 'd', 'e', 'f')",
 		"select key, value where key ^= 'j' order by json(value)['a']",
